@@ -4,9 +4,25 @@ package sqlite
 
 import "database/sql"
 
-// VerifSetDBOpener substitutes the function used to open the database, so that a
-// fault-injecting driver can be placed under the store (added by overlay at check time).
-func VerifSetDBOpener(f func(driverName, dsn string) (*sql.DB, error)) { dbOpener = f }
+// Added by overlay at check time. cmd/vinstr redirects every reference this package
+// makes to database/sql's Open to verifSQL.Open, so a fault-injecting driver can be put
+// under the store; the hook depends on no private name of the package.
+
+type verifSQLT struct{}
+
+var verifSQL verifSQLT
+
+var verifOpener func(driverName, dsn string) (*sql.DB, error)
+
+func (verifSQLT) Open(driverName, dsn string) (*sql.DB, error) {
+	if f := verifOpener; f != nil {
+		return f(driverName, dsn)
+	}
+	return sql.Open(driverName, dsn)
+}
+
+// VerifSetDBOpener substitutes the function used to open the database.
+func VerifSetDBOpener(f func(driverName, dsn string) (*sql.DB, error)) { verifOpener = f }
 
 // VerifResetDBOpener restores the default opener.
-func VerifResetDBOpener() { dbOpener = sql.Open }
+func VerifResetDBOpener() { verifOpener = nil }
